@@ -1,11 +1,885 @@
 package main
 
-import "fmt"
+// Property-specific checks that are not plain lock-step runs.
 
-// runSpecial dispatches the property-specific checks that are not plain
-// lock-step runs (segmentation independence, embedding, round trips, keys,
-// mouse, streams, locks).
+import (
+	"bytes"
+	"encoding/hex"
+	"encoding/json"
+	"fmt"
+	"os"
+	"path/filepath"
+	"sort"
+	"strings"
+	"sync"
+	"time"
+
+	te "github.com/ricochet1k/termemu"
+)
+
+type specialCtx struct {
+	prop      string
+	seed      int64
+	n         int
+	drvPath   string
+	widths    string
+	replayDir string
+	known     []knownFinding
+	workers   int
+
+	mu       sync.Mutex
+	st       stats
+	viol     []map[string]any
+	knownHit map[string]int
+	sigs     map[string]bool
+}
+
+func (c *specialCtx) violation(kind string, detail string, payload any) {
+	c.mu.Lock()
+	defer c.mu.Unlock()
+	for k := range c.known {
+		kf := &c.known[k]
+		if kf.Status == "open" && kf.Property == c.prop && (kf.Kind == "" || kf.Kind == kind) {
+			if ok, _ := regexpMatch(kf.Detail, detail); ok {
+				c.knownHit[kf.ID]++
+				return
+			}
+		}
+	}
+	for _, v := range c.viol {
+		if v["clause"] == kind {
+			return // one replay per clause
+		}
+	}
+	c.viol = append(c.viol, map[string]any{"property": c.prop, "kind": "failing-input", "clause": kind, "detail": detail, "input": payload, "seed": c.seed})
+}
+
+func regexpMatch(pat, s string) (bool, error) {
+	if pat == "" {
+		return true, nil
+	}
+	return regexpMatchString(pat, s)
+}
+
+func (c *specialCtx) sample(s string) {
+	c.mu.Lock()
+	if len(c.st.Samples) < 4 {
+		c.st.Samples = append(c.st.Samples, s)
+	}
+	c.mu.Unlock()
+}
+
+func (c *specialCtx) count(sig string) {
+	c.mu.Lock()
+	c.st.Cases++
+	c.sigs[sig] = true
+	c.mu.Unlock()
+}
+
+func (c *specialCtx) finish(outPath string) int {
+	c.st.Distinct = len(c.sigs)
+	c.st.Known = c.knownHit
+	ids := make([]string, 0, len(c.knownHit))
+	for id := range c.knownHit {
+		ids = append(ids, id)
+	}
+	sort.Strings(ids)
+	for _, id := range ids {
+		for _, k := range c.known {
+			if k.ID == id {
+				fmt.Printf("KNOWN-FINDING: property=%s %s: %s (matched %d times)\n", c.prop, id, k.Description, c.knownHit[id])
+			}
+		}
+	}
+	exit := 0
+	if len(c.viol) > 0 {
+		_ = os.MkdirAll(c.replayDir, 0o755)
+		for n, v := range c.viol {
+			if n >= 3 {
+				break
+			}
+			path := filepath.Join(c.replayDir, fmt.Sprintf("%s-%s-%d-%d.json", c.prop, c.st.Profile, c.seed, n))
+			b, _ := json.MarshalIndent(v, "", " ")
+			_ = os.WriteFile(path, b, 0o644)
+			fmt.Printf("VIOLATION property=%s replay=%s\n  %s: %s\n", c.prop, path, v["clause"], truncate(fmt.Sprint(v["detail"]), 500))
+			c.st.Violations = append(c.st.Violations, path)
+			exit = 1
+		}
+	}
+	c.st.NoViolation = exit == 0
+	if outPath != "" {
+		b, _ := json.MarshalIndent(c.st, "", " ")
+		_ = os.WriteFile(outPath, b, 0o644)
+	}
+	return exit
+}
+
 func runSpecial(name, prop string, seed int64, n int, drvPath, widths, outPath, replayDir string, known []knownFinding, workers int) int {
-	fmt.Println("unknown special check", name)
-	return 2
+	start := time.Now()
+	c := &specialCtx{prop: prop, seed: seed, n: n, drvPath: drvPath, widths: widths, replayDir: replayDir, known: known,
+		workers: workers, knownHit: map[string]int{}, sigs: map[string]bool{}}
+	c.st = stats{Property: prop, Profile: name, Seed: seed, ClassHist: map[string]int{}, TagHist: map[string]int{}, SizeHist: map[string]int{},
+		BufHist: map[string]int{}, ChunkHist: map[string]int{}, Foreign: map[string]int{}}
+	switch name {
+	case "lockscenario":
+		return lockScenario(seed)
+	case "mouse":
+		specialMouse(c)
+	case "keys":
+		specialKeys(c)
+	case "kbdexhaustive":
+		specialKbd(c)
+	case "segmentation":
+		specialSegmentation(c)
+	case "embed":
+		specialEmbed(c)
+	case "gridspan":
+		specialGridSpan(c)
+	case "roundtrip":
+		specialRoundTrip(c)
+	case "ttymirror":
+		specialTTYMirror(c)
+	case "streams":
+		specialStreams(c)
+	case "locks":
+		specialLocks(c)
+	default:
+		fmt.Println("unknown special check", name)
+		return 2
+	}
+	c.st.WallS = time.Since(start).Seconds()
+	return c.finish(outPath)
+}
+
+// parallel runs f(i, driver) for i in [0,n) on the worker pool, one model driver per worker.
+func (c *specialCtx) parallel(n int, f func(i int, d *driver)) {
+	jobs := make(chan int, 256)
+	var wg sync.WaitGroup
+	for w := 0; w < c.workers; w++ {
+		wg.Add(1)
+		go func() {
+			defer wg.Done()
+			d, err := startDriver(c.drvPath, c.widths)
+			if err != nil {
+				fmt.Fprintln(os.Stderr, "driver:", err)
+				os.Exit(2)
+			}
+			defer d.close()
+			for i := range jobs {
+				f(i, d)
+			}
+		}()
+	}
+	for i := 0; i < n; i++ {
+		jobs <- i
+	}
+	close(jobs)
+	wg.Wait()
+}
+
+func (d *driver) ask(line string) string {
+	if err := d.send(line); err != nil {
+		return "ERR " + err.Error()
+	}
+	s, err := d.out.ReadString('\n')
+	if err != nil {
+		return "ERR " + err.Error()
+	}
+	return strings.TrimSpace(s)
+}
+
+// ---------------------------------------------------------------- C13 mouse
+
+func feedAll(im *impl, data []byte) string {
+	im.be.script = append(im.be.script, chunk{data: data})
+	for i := 0; i < len(data)+4; i++ {
+		err, pan := im.vt.Step()
+		if pan != "" {
+			return pan
+		}
+		if err != nil {
+			break
+		}
+	}
+	return ""
+}
+
+var mouseCoords = []int{1, 2, 94, 95, 96, 127, 128, 222, 223, 224, 255, 256, 2015, 2016, 2017, 65535, 100000}
+var mouseCoordsY = []int{1, 95, 96, 223, 224, 2015, 2016, 70000}
+
+func specialMouse(c *specialCtx) {
+	modes := []string{"", "\x1b[?9h", "\x1b[?1000h", "\x1b[?1002h", "\x1b[?1003h"}
+	encs := []string{"", "\x1b[?1005h", "\x1b[?1006h"}
+	type combo struct{ mode, enc int }
+	var combos []combo
+	for m := range modes {
+		for e := range encs {
+			combos = append(combos, combo{m, e})
+		}
+	}
+	c.parallel(len(combos), func(i int, d *driver) {
+		cb := combos[i]
+		im, _ := newImpl(0, false, 10, 5)
+		feedAll(im, []byte(modes[cb.mode]+encs[cb.enc]))
+		for btn := 0; btn < 4; btn++ {
+			for press := 0; press < 2; press++ {
+				for fl := 0; fl < 32; fl++ {
+					mods := fl * 4
+					for _, x := range mouseCoords {
+						for _, y := range mouseCoordsY {
+							im.be.written = im.be.written[:0]
+							im.be.writeCalls = 0
+							err, pan := im.vt.SendMouse(te.MouseBtn(btn), press == 1, te.MouseFlag(mods), x, y)
+							got := "none"
+							if len(im.be.written) > 0 {
+								got = hex.EncodeToString(im.be.written)
+							}
+							want := d.ask(fmt.Sprintf("mouse %d %d %d %d %d %d %d", cb.mode, cb.enc, btn, press, mods, x, y))
+							ev := fmt.Sprintf("mode=%d enc=%d btn=%d press=%d mods=%d x=%d y=%d", cb.mode, cb.enc, btn, press, mods, x, y)
+							c.count(fmt.Sprintf("%d %d %d %d %d %d %d", cb.mode, cb.enc, btn, press, mods, x, y))
+							if pan != "" {
+								c.violation("mouse-panic", ev+": "+pan, ev)
+							} else if err != nil {
+								c.violation("mouse-error", ev+": "+err.Error(), ev)
+							} else if got != want {
+								c.violation("mouse-report", fmt.Sprintf("%s: wrote %s, model %s", ev, got, want), ev)
+							}
+							if got != "none" && im.be.writeCalls != 1 && cb.enc != 2 {
+								c.violation("mouse-one-write", fmt.Sprintf("%s: %d writes", ev, im.be.writeCalls), ev)
+							}
+						}
+					}
+				}
+			}
+		}
+		// failing and short-writing backends: an error comes back, never a panic
+		for _, failAt := range []int{1} {
+			for _, x := range []int{1, 300} {
+				im.be.written = im.be.written[:0]
+				im.be.writeCalls = 0
+				im.be.writeErrAt = failAt
+				err, pan := im.vt.SendMouse(0, true, 0, x, 1)
+				im.be.writeErrAt = 0
+				ev := fmt.Sprintf("mode=%d enc=%d write fails", cb.mode, cb.enc)
+				if pan != "" {
+					c.violation("mouse-write-error-panic", ev+": "+pan, ev)
+				} else if cb.mode != 0 && err == nil {
+					c.violation("mouse-write-error-lost", ev+": no error returned", ev)
+				}
+				// short writes: the whole report is delivered
+				im.be.written = im.be.written[:0]
+				im.be.writeCalls = 0
+				im.be.writeSizes = []int{1, 2, 1, 1, 3, 1, 1, 1, 1, 1, 1, 1, 1, 1, 1, 1, 1, 1, 1, 1}
+				_, pan = im.vt.SendMouse(0, true, 0, x, 1)
+				got := hex.EncodeToString(im.be.written)
+				im.be.writeSizes = nil
+				want := d.ask(fmt.Sprintf("mouse %d %d 0 1 0 %d 1", cb.mode, cb.enc, x))
+				if want == "none" {
+					want = ""
+				}
+				if pan != "" || got != want {
+					c.violation("mouse-short-write", fmt.Sprintf("%s x=%d: wrote %s want %s %s", ev, x, got, want, pan), ev)
+				}
+			}
+		}
+	})
+	c.sample("mode=?1002 enc=SGR btn=0 press=1 mods=36 x=224 y=1")
+	c.st.Samples = append(c.st.Samples, "every (4 buttons x press/release x 32 flag sets x 17 x-coordinates x 8 y-coordinates x 5 modes x 3 encodings) event is compared with the model")
+}
+
+// ---------------------------------------------------------------- C12 keys
+
+func keyCmd(flags, mok int, app bool, ev te.KeyEvent) string {
+	text := "-"
+	if len(ev.Text) > 0 {
+		parts := make([]string, len(ev.Text))
+		for i, r := range ev.Text {
+			parts[i] = fmt.Sprint(int(r))
+		}
+		text = strings.Join(parts, ":")
+	}
+	return fmt.Sprintf("key %d %d %d %d %d %d %d %d %d %s", flags, mok, b2i(app), int(ev.Code), int(ev.Rune), int(ev.Mod), int(ev.Event), int(ev.Shifted), int(ev.BaseLayout), text)
+}
+
+var keyRunes = []rune{'a', 'z', 'A', 'Z', '0', '5', '9', ' ', '@', '[', '\\', ']', '^', '_', '?', '/', '~', '-', '=', ';', '\'', ',', '.', '`', '!', 'é', 'ß', 'λ', 'Ж', '€', '中', '🐹', 0x7f, 0x1b, 0x0d, 0x09, 0x80, 0xff, 0x7ff, 0x800, 0xffff, 0x10000, 0x10ffff}
+
+func specialKeys(c *specialCtx) {
+	// terminal states: 32 flag sets x modifyOtherKeys 0/1/2 x application cursor keys
+	type tstate struct {
+		flags, mok int
+		app        bool
+	}
+	var states []tstate
+	for f := 0; f < 32; f++ {
+		for mok := 0; mok < 3; mok++ {
+			for app := 0; app < 2; app++ {
+				states = append(states, tstate{f, mok, app == 1})
+			}
+		}
+	}
+	perState := c.n / len(states)
+	if perState < 50 {
+		perState = 50
+	}
+	c.parallel(len(states), func(i int, d *driver) {
+		ts := states[i]
+		im, _ := newImpl(0, false, 10, 5)
+		setup := fmt.Sprintf("\x1b[=%du\x1b[>4;%dm", ts.flags, ts.mok)
+		if ts.app {
+			setup += "\x1b[?1h"
+		}
+		feedAll(im, []byte(setup))
+		r := newPrng(uint64(c.seed)*1000 + uint64(i))
+		check := func(ev te.KeyEvent) {
+			got := hexOrDash(im.vt.EncodeKey(ev))
+			want := d.ask(keyCmd(ts.flags, ts.mok, ts.app, ev))
+			c.count(fmt.Sprintf("%d/%d/%d/%d/%d", ts.flags, int(ev.Code), int(ev.Mod), int(ev.Event), int(ev.Rune)))
+			if got != want {
+				c.violation("key-encoding", fmt.Sprintf("flags=%d mok=%d app=%v ev=%+v: wrote %s, model %s", ts.flags, ts.mok, ts.app, ev, got, want),
+					map[string]any{"flags": ts.flags, "mok": ts.mok, "app": ts.app, "code": int(ev.Code), "rune": int(ev.Rune), "mod": int(ev.Mod), "event": int(ev.Event)})
+			}
+		}
+		// the finite part, stratified: every code with a rotating selection of modifier masks and events
+		for code := 0; code < 112; code++ {
+			for k := 0; k < 6; k++ {
+				mod := r.intn(256)
+				if k == 0 {
+					mod = 0
+				} else if k == 1 {
+					mod = 1 << r.intn(8)
+				}
+				ev := te.KeyEvent{Code: te.KeyCode(code), Mod: te.KeyMod(mod), Event: te.KeyEventType(r.intn(4))}
+				if code == 0 {
+					ev.Rune = pick(r, keyRunes)
+				}
+				check(ev)
+			}
+		}
+		for k := 0; k < perState; k++ {
+			ev := te.KeyEvent{Code: te.KeyCode(r.intn(112)), Mod: te.KeyMod(r.intn(256)), Event: te.KeyEventType(r.intn(4))}
+			if r.chance(1, 2) {
+				ev.Code = 0
+			}
+			if r.chance(1, 3) {
+				ev.Mod = te.KeyMod([]int{0, 1, 2, 4, 5, 6, 3, 7, 8, 64, 128}[r.intn(11)])
+			}
+			if ev.Code == 0 || r.chance(1, 6) {
+				ev.Rune = pick(r, keyRunes)
+				if r.chance(1, 4) {
+					ev.Rune = rune(r.intn(0x110000))
+				}
+			}
+			if r.chance(1, 3) {
+				ev.Shifted = pick(r, keyRunes)
+			}
+			if r.chance(1, 3) {
+				ev.BaseLayout = pick(r, keyRunes)
+			}
+			if r.chance(1, 4) {
+				for j, m := 0, 1+r.intn(3); j < m; j++ {
+					ev.Text = append(ev.Text, pick(r, keyRunes))
+				}
+			}
+			check(ev)
+		}
+		// the write path: SendKey delivers exactly the encoding (also over short writes)
+		for k := 0; k < 20; k++ {
+			ev := te.KeyEvent{Code: te.KeyCode(r.intn(112)), Mod: te.KeyMod(r.intn(8)), Event: te.KeyEventType(r.intn(4)), Rune: pick(r, keyRunes)}
+			im.be.written = im.be.written[:0]
+			im.be.writeCalls = 0
+			im.be.writeSizes = []int{1, 2, 1, 3, 1, 1, 1, 1, 1, 1, 1, 1, 1, 1, 1, 1, 1, 1, 1, 1, 1, 1, 1, 1, 1, 1, 1, 1, 1, 1, 1, 1}
+			n, err := im.term.SendKey(ev)
+			im.be.writeSizes = nil
+			want := im.vt.EncodeKey(ev)
+			if err != nil || n != len(want) || !bytes.Equal(im.be.written, want) {
+				c.violation("key-write", fmt.Sprintf("SendKey(%+v) = (%d,%v), wrote %x, encoding %x", ev, n, err, im.be.written, want), nil)
+			}
+		}
+	})
+	c.sample("flags=1 code=KeyRune rune='a' mod=ctrl event=press -> 1b5b39373b3575")
+}
+
+// ---------------------------------------------------------------- C19 exhaustive
+
+func specialKbd(c *specialCtx) {
+	alphabet := []string{"\x1b[>1u", "\x1b[>5u", "\x1b[<u", "\x1b[<2u", "\x1b[=3u", "\x1b[=4;2u", "\x1b[=1;3u", "\x1b[?u", "\x1b[?1049h", "\x1b[?1049l"}
+	depth := 5
+	total := 1
+	for i := 0; i < depth; i++ {
+		total *= len(alphabet)
+	}
+	var mu sync.Mutex
+	c.parallel(total, func(i int, d *driver) {
+		var items []Item
+		x := i
+		for k := 0; k < depth; k++ {
+			items = append(items, in("kbd", []byte(alphabet[x%len(alphabet)])))
+			x /= len(alphabet)
+		}
+		cs := Case{W: 4, H: 2, Items: items}
+		res := runCase(&cs, d, runOpts{})
+		c.count(fmt.Sprint(i))
+		for _, f := range res.Findings {
+			if owns("C19", f) || f.Kind == "panic" {
+				mu.Lock()
+				c.violation("kbd-"+f.Kind+"-"+f.Clause, f.Detail, cs)
+				mu.Unlock()
+			}
+		}
+	})
+	// deep sequences beyond the 32-entry limit
+	r := newPrng(uint64(c.seed))
+	for k := 0; k < 40; k++ {
+		var items []Item
+		for j, n := 0, 30+r.intn(60); j < n; j++ {
+			items = append(items, in("kbd", []byte(fmt.Sprintf("\x1b[>%du", r.intn(32)))))
+		}
+		for j, n := 0, r.intn(50); j < n; j++ {
+			items = append(items, in("kbd", []byte(pick(r, []string{"\x1b[<u", "\x1b[<3u", "\x1b[?u", "\x1b[<40u"}))))
+		}
+		cs := Case{W: 4, H: 2, Items: items}
+		d, err := startDriver(c.drvPath, c.widths)
+		if err != nil {
+			return
+		}
+		res := runCase(&cs, d, runOpts{})
+		d.close()
+		c.count(fmt.Sprint("deep", k))
+		for _, f := range res.Findings {
+			if owns("C19", f) || f.Kind == "panic" {
+				c.violation("kbd-"+f.Kind+"-"+f.Clause, f.Detail, cs)
+			}
+		}
+	}
+	c.st.Samples = append(c.st.Samples, fmt.Sprintf("all %d sequences of length %d over %q", total, depth, alphabet))
+}
+
+// ---------------------------------------------------------------- C08 segmentation
+
+func concatInput(cs *Case) []byte {
+	var data []byte
+	for _, it := range cs.Items {
+		if it.Kind == "in" {
+			data = append(data, it.bytes()...)
+		}
+	}
+	return data
+}
+
+// finalOf runs the implementation alone on data cut as given and returns its final observation.
+func finalOf(mode int, grid bool, w, h int, chunks [][]byte) (lines []string, replies []byte, events []string, pan string, bad []finding) {
+	im, p := newImpl(mode, grid, w, h)
+	if p != "" {
+		return nil, nil, nil, p, nil
+	}
+	total := 0
+	for _, ch := range chunks {
+		im.be.script = append(im.be.script, chunk{data: append([]byte(nil), ch...)})
+		total += len(ch)
+	}
+	for i := 0; i < total+8; i++ {
+		err, p := im.vt.Step()
+		if p != "" {
+			return nil, nil, nil, p, nil
+		}
+		if err != nil {
+			break
+		}
+	}
+	o, snap := im.observe(true)
+	o.G = "G - " + o.G[strings.LastIndex(o.G, " ")+1:]
+	o.E = ""
+	o.W = ""
+	lines = o.lines()
+	replies = append([]byte(nil), im.be.written...)
+	for _, e := range im.fe.events {
+		switch e.kind {
+		case "b", "f", "i", "t":
+			events = append(events, e.s)
+		}
+	}
+	// frontend-visible effect of the geometric notifications: the shadow copy and last values
+	im.checkAPI(&snap, 0, "final", &bad)
+	return
+}
+
+func cutAt(data []byte, cuts []int) [][]byte {
+	var out [][]byte
+	prev := 0
+	for _, c := range cuts {
+		if c > prev && c < len(data) {
+			out = append(out, data[prev:c])
+			prev = c
+		}
+	}
+	return append(out, data[prev:])
+}
+
+func specialSegmentation(c *specialCtx) {
+	prof := &profile{name: "C08", weights: withWeights(map[string]int{"textwide": 14, "badutf8": 4, "osc": 4, "sgr": 10, "query": 5, "kbd": 3, "oddcsi": 4}),
+		minLen: 2, maxLen: 25, grid: 25, chunks: []int{0}}
+	master := newPrng(uint64(c.seed))
+	seeds := make([]uint64, c.n)
+	for i := range seeds {
+		seeds[i] = master.next()
+	}
+	c.parallel(c.n, func(i int, d *driver) {
+		r := newPrng(seeds[i])
+		cs := genCase(prof, r)
+		if i%5 == 0 {
+			cs.Mode = 1 // grapheme mode: cuts between clusters only (below)
+			cs.Grid = false
+		}
+		data := concatInput(&cs)
+		if i%40 == 7 {
+			// long stream straddling the reader's buffer sizes
+			pad := bytes.Repeat([]byte("abcdefgh\r\n\x1b[31mxy\x1b[0m🐹é"), 200)
+			data = append(pad[:4090+r.intn(12)], data...)
+		}
+		if len(data) == 0 {
+			return
+		}
+		// the sanctioned corner: a run of several characters written onto the second cell of a wide character
+		if cs.Mode == 0 {
+			probe := Case{Mode: 0, Grid: cs.Grid, W: cs.W, H: cs.H, Items: []Item{in("all", data)}}
+			pr := runCase(&probe, d, runOpts{})
+			if pr.Sanctioned {
+				c.mu.Lock()
+				c.st.Cut++
+				c.mu.Unlock()
+				return
+			}
+		}
+		ref, refW, refE, refPan, refBad := finalOf(cs.Mode, cs.Grid, cs.W, cs.H, [][]byte{data})
+		c.count(fmt.Sprintf("%d %v %dx%d %x", cs.Mode, cs.Grid, cs.W, cs.H, data))
+		payload := map[string]any{"mode": cs.Mode, "grid": cs.Grid, "w": cs.W, "h": cs.H, "hex": hex.EncodeToString(data)}
+		if refPan != "" {
+			return // C01's business
+		}
+		for _, f := range refBad {
+			if f.Prop == "C10" {
+				return // C10's business
+			}
+		}
+		var segs [][][]byte
+		if cs.Mode == 0 {
+			bytewise := make([][]byte, len(data))
+			for k := range data {
+				bytewise[k] = data[k : k+1]
+			}
+			segs = append(segs, bytewise)
+			if len(data) <= 400 {
+				for k := 1; k < len(data); k++ { // every single cut
+					segs = append(segs, cutAt(data, []int{k}))
+				}
+			} else {
+				for _, k := range []int{4095, 4096, 4097, 8191, 8192, 8193, len(data) - 1} {
+					segs = append(segs, cutAt(data, []int{k}))
+				}
+				segs = append(segs, cutAt(data, []int{4096, 8192}))
+			}
+			for k := 0; k < 6; k++ { // random multi-cuts
+				var cuts []int
+				for p := 0; p < len(data); p += 1 + r.intn(9) {
+					cuts = append(cuts, p)
+				}
+				segs = append(segs, cutAt(data, cuts))
+			}
+			if len(data) <= 9 { // exhaustive
+				for m := 0; m < 1<<(len(data)-1); m++ {
+					var cuts []int
+					for b := 0; b < len(data)-1; b++ {
+						if m>>b&1 == 1 {
+							cuts = append(cuts, b+1)
+						}
+					}
+					segs = append(segs, cutAt(data, cuts))
+				}
+			}
+		} else {
+			// grapheme mode: cuts that do not fall inside an extended grapheme cluster
+			var bounds []int
+			pos := 0
+			for _, cl := range graphemeClusters(string(data)) {
+				pos += len(cl.text)
+				bounds = append(bounds, pos)
+			}
+			for k := 0; k < 8; k++ {
+				var cuts []int
+				for _, b := range bounds {
+					if r.chance(1, 3) {
+						cuts = append(cuts, b)
+					}
+				}
+				segs = append(segs, cutAt(data, cuts))
+			}
+		}
+		for _, sg := range segs {
+			got, gotW, gotE, pan, _ := finalOf(cs.Mode, cs.Grid, cs.W, cs.H, sg)
+			c.mu.Lock()
+			c.st.Steps++
+			c.mu.Unlock()
+			var sizes []int
+			for _, s := range sg {
+				sizes = append(sizes, len(s))
+			}
+			payload["chunks"] = sizes
+			if pan != "" {
+				c.violation("segmentation-panic", fmt.Sprintf("chunks %v: %s", sizes, pan), payload)
+				return
+			}
+			if strings.Join(got, "\n") != strings.Join(ref, "\n") {
+				c.violation("segmentation-state", fmt.Sprintf("chunks %v: final state differs: %s", sizes, firstDiff(ref, got)), payload)
+				return
+			}
+			if !bytes.Equal(gotW, refW) {
+				c.violation("segmentation-replies", fmt.Sprintf("chunks %v: replies %x vs %x", sizes, gotW, refW), payload)
+				return
+			}
+			if strings.Join(gotE, ",") != strings.Join(refE, ",") {
+				c.violation("segmentation-events", fmt.Sprintf("chunks %v: notifications differ", sizes), payload)
+				return
+			}
+		}
+		if i < 3 {
+			c.sample(fmt.Sprintf("%dx%d %q under %d segmentations", cs.W, cs.H, string(data), len(segs)))
+		}
+	})
+}
+
+func firstDiff(a, b []string) string {
+	for i := 0; i < len(a) && i < len(b); i++ {
+		if a[i] != b[i] {
+			return fmt.Sprintf("one read [%s] segmented [%s]", truncate(a[i], 300), truncate(b[i], 300))
+		}
+	}
+	return fmt.Sprintf("%d vs %d lines", len(a), len(b))
+}
+
+// ---------------------------------------------------------------- C09 embedding
+
+func specialEmbed(c *specialCtx) {
+	master := newPrng(uint64(c.seed))
+	seeds := make([]uint64, c.n)
+	for i := range seeds {
+		seeds[i] = master.next()
+	}
+	c.parallel(c.n, func(i int, d *driver) {
+		r := newPrng(seeds[i])
+		g := &genCtx{r: r, w: 4 + r.intn(10), h: 2 + r.intn(6)}
+		mk := func() []byte {
+			var b []byte
+			for k, n := 0, r.intn(4); k < n; k++ {
+				it := g.item(pick(r, []string{"text", "textwide", "sgr", "goto", "crlf", "wrap"}))
+				b = append(b, it.bytes()...)
+			}
+			return b
+		}
+		pre, post := mk(), mk()
+		var seq []byte
+		switch r.intn(6) {
+		case 0, 1:
+			seq = g.item("oddcsi").bytes()
+		case 2:
+			seq = g.item("esc").bytes()
+		case 3:
+			seq = g.item("dcs").bytes()
+		case 4:
+			num := pick(r, []string{"1", "3", "4", "5", "8", "9", "10", "11", "52", "104", "112", "133", "777"})
+			seq = append([]byte("\x1b]"+num+";"), g.text(r.intn(10), true, false)...)
+			if r.chance(1, 3) {
+				seq = append(seq, []byte("✜œ")...)
+			}
+			seq = append(seq, pick(r, [][]byte{{7}, {27, '\\'}})...)
+		default:
+			seq = g.item("manyparams").bytes()
+		}
+		// is the sequence a no-op in the model? (unrecognised, or recognised with no effect here)
+		probe := Case{W: g.w, H: g.h, Items: []Item{in("pre", pre), in("seq", seq)}}
+		pr := runCase(&probe, d, runOpts{keepFinal: true})
+		base := Case{W: g.w, H: g.h, Items: []Item{in("pre", pre)}}
+		br := runCase(&base, d, runOpts{keepFinal: true})
+		if len(pr.Findings) > 0 || len(br.Findings) > 0 || pr.Sanctioned || br.Sanctioned {
+			return
+		}
+		stripG := func(l []string) string { return strings.Join(l[1:], "\n") }
+		if stripG(pr.Final) != stripG(br.Final) || !bytes.Equal(pr.Replies, br.Replies) || strings.Join(pr.Events, ",") != strings.Join(br.Events, ",") {
+			return // the sequence is recognised and does something: not this check's subject
+		}
+		with := append(append(append([]byte(nil), pre...), seq...), post...)
+		without := append(append([]byte(nil), pre...), post...)
+		a, aW, aE, aPan, _ := finalOf(0, false, g.w, g.h, [][]byte{with})
+		b, bW, bE, bPan, _ := finalOf(0, false, g.w, g.h, [][]byte{without})
+		c.count(hex.EncodeToString(seq))
+		payload := map[string]any{"w": g.w, "h": g.h, "pre": hex.EncodeToString(pre), "seq": hex.EncodeToString(seq), "post": hex.EncodeToString(post)}
+		if aPan != "" || bPan != "" {
+			return
+		}
+		if strings.Join(a, "\n") != strings.Join(b, "\n") || !bytes.Equal(aW, bW) || strings.Join(aE, ",") != strings.Join(bE, ",") {
+			c.violation("embed-residue", fmt.Sprintf("sequence %q between %q and %q leaves a residue: %s", seq, pre, post, firstDiff(b, a)), payload)
+		}
+		if i < 4 {
+			c.sample(fmt.Sprintf("%q ++ %q ++ %q", pre, seq, post))
+		}
+	})
+}
+
+// ---------------------------------------------------------------- C20 grid vs span
+
+func specialGridSpan(c *specialCtx) {
+	prof := profiles["C20"]
+	master := newPrng(uint64(c.seed))
+	seeds := make([]uint64, c.n)
+	for i := range seeds {
+		seeds[i] = master.next()
+	}
+	c.parallel(c.n, func(i int, d *driver) {
+		r := newPrng(seeds[i])
+		cs := genCase(prof, r)
+		cs.Chunk = 0
+		// drive both buffers step by step on the same input; the model (keep policy) tells where
+		// the sanctioned difference begins
+		cs.Grid = false
+		span := runCaseTrace(&cs, d)
+		cs.Grid = true
+		grid := runCaseTrace(&cs, nil)
+		c.count(fmt.Sprint(signatureOfTrace(span)))
+		// the two buffers cut text into different steps: compare wherever both have consumed
+		// the same number of bytes (and after every resize)
+		gi := 0
+		for k := 0; k < len(span.obs); k++ {
+			if span.sanctionedAt >= 0 && k >= span.sanctionedAt {
+				c.mu.Lock()
+				c.st.Cut++
+				c.mu.Unlock()
+				break
+			}
+			for gi < len(grid.obs) && grid.at[gi] < span.at[k] {
+				gi++
+			}
+			if gi >= len(grid.obs) {
+				break
+			}
+			if grid.at[gi] != span.at[k] {
+				continue
+			}
+			// take the last grid observation at this position
+			for gi+1 < len(grid.obs) && grid.at[gi+1] == span.at[k] {
+				gi++
+			}
+			if k+1 < len(span.obs) && span.at[k+1] == span.at[k] {
+				continue
+			}
+			if span.obs[k] != grid.obs[gi] {
+				c.violation("grid-span-differ", fmt.Sprintf("after %d bytes (%s): span vs grid: %s", span.at[k]%1000000, span.tags[k], truncate(diffLines(span.obs[k], grid.obs[gi]), 900)), cs)
+				break
+			}
+		}
+		if span.pan != grid.pan && span.sanctionedAt < 0 {
+			c.violation("grid-span-panic", fmt.Sprintf("span panic %q grid panic %q", span.pan, grid.pan), cs)
+		}
+		if i < 2 {
+			c.sample(cs.String())
+		}
+	})
+}
+
+type trace struct {
+	obs          []string // full observation per step (cells of both buffers, geometry, modes)
+	at           []int    // position of the observation: resizes so far * 1000000 + bytes consumed
+	tags         []string
+	sanctionedAt int
+	pan          string
+}
+
+func signatureOfTrace(t trace) string { return strings.Join(t.tags, "|") }
+
+func diffLines(a, b string) string {
+	la, lb := strings.Split(a, "\n"), strings.Split(b, "\n")
+	for i := 0; i < len(la) && i < len(lb); i++ {
+		if la[i] != lb[i] {
+			return la[i] + "  <>  " + lb[i]
+		}
+	}
+	return "length"
+}
+
+// runCaseTrace runs the implementation and records a full observation after every step. With a
+// driver the model runs along (span/keep policy) to find the first write onto a continuation cell.
+func runCaseTrace(cs *Case, d *driver) trace {
+	tr := trace{sanctionedAt: -1}
+	im, pan := newImpl(cs.Mode, cs.Grid, cs.W, cs.H)
+	if pan != "" {
+		tr.pan = pan
+		return tr
+	}
+	if d != nil {
+		if _, err := d.cmdBlock(fmt.Sprintf("case keep %d %d", cs.W, cs.H)); err != nil {
+			d = nil
+		}
+	}
+	resizes := 0
+	var evs []string
+	record := func(tag string) {
+		o, _ := im.observe(true)
+		// notifications and replies accumulate (the buffers cut text into different steps)
+		if o.E != "E -" {
+			evs = append(evs, o.E[2:])
+		}
+		o.E = "E " + strings.Join(evs, ",")
+		o.W = "W " + hexOrDash(im.be.written)
+		ls := o.lines()
+		tr.obs = append(tr.obs, strings.Join(ls[1:], "\n")) // without the consumed count
+		tr.at = append(tr.at, resizes*1000000+im.consumed())
+		tr.tags = append(tr.tags, tag)
+	}
+	for _, it := range cs.Items {
+		switch it.Kind {
+		case "resize":
+			if p := im.resize(it.W, it.H); p != "" {
+				tr.pan = p
+				return tr
+			}
+			if d != nil {
+				d.cmdBlock(fmt.Sprintf("resize %d %d", it.W, it.H))
+			}
+			resizes++
+			record("resize")
+		case "in":
+			data := it.bytes()
+			im.be.script = append(im.be.script, chunk{data: data})
+			if d != nil {
+				d.send("feed " + it.Hex)
+			}
+			for k := 0; k < len(data)+8; k++ {
+				err, p := im.vt.Step()
+				if p != "" {
+					tr.pan = p
+					return tr
+				}
+				if err != nil {
+					if d != nil {
+						d.cmdBlock("eof")
+					}
+					break
+				}
+				tag := "?"
+				if d != nil {
+					cmd := fmt.Sprintf("adv %d", im.consumed())
+					if len(im.be.script) == 0 && im.vt.Buffered() == 0 {
+						cmd += " eof"
+					}
+					mo, err := d.cmdBlock(cmd)
+					if err == nil {
+						tag = strings.Join(mo.tags, ",")
+						if strings.Contains(tag, "tK") && tr.sanctionedAt < 0 {
+							tr.sanctionedAt = len(tr.obs)
+						}
+					}
+				}
+				record(tag)
+			}
+		}
+	}
+	return tr
 }
